@@ -43,6 +43,7 @@ type BFS[W any] struct {
 	Key       func(w W) string         // canonical state key: content + hidden representation
 	Check     func(w W) *ev.Fail       // state invariant, evaluated in every reached state
 	Visit     func(w W, path []string) // optional: called once per new state (single threaded)
+	Close     func(w W)                // optional: releases resources of a world after it was observed
 	MaxDepth  int                      // 0 = until fixpoint
 	Deadline  time.Time                // zero = none; hitting it ends the run with exhaustive=false
 	MaxStates int                      // 0 = none
@@ -131,6 +132,9 @@ func (b *BFS[W]) Run(r *ev.Run) {
 	if b.Visit != nil {
 		b.Visit(w0, nil)
 	}
+	if b.Close != nil {
+		b.Close(w0)
+	}
 	frontier := []node{{}}
 	var trans int64
 	depth := 0
@@ -178,6 +182,9 @@ func (b *BFS[W]) Run(r *ev.Run) {
 					w, out, fl := b.exec(p)
 					atomic.AddInt64(&trans, 1)
 					if fl != nil {
+						if b.Close != nil {
+							b.closeSafe(w)
+						}
 						if len(fl.Case.([]string)) != len(p) {
 							r.HarnessError(fmt.Sprintf("%s: replay of an already accepted prefix failed (nondeterminism): %v: %s", b.Name, fl.Case, fl.What))
 							continue
@@ -195,6 +202,9 @@ func (b *BFS[W]) Run(r *ev.Run) {
 					}
 					localOut[wi][b.Ops[op].Name+"="+out] = struct{}{}
 					lc = append(lc, cand{b.Key(w), p})
+					if b.Close != nil {
+						b.Close(w)
+					}
 				}
 				mu.Lock()
 				cands = append(cands, lc...)
@@ -233,6 +243,9 @@ func (b *BFS[W]) Run(r *ev.Run) {
 			if b.Visit != nil {
 				w, _, _ := b.exec(best[k])
 				b.Visit(w, pathNames(b, best[k]))
+				if b.Close != nil {
+					b.Close(w)
+				}
 			}
 		}
 		depth++
@@ -250,6 +263,11 @@ func (b *BFS[W]) Run(r *ev.Run) {
 	}
 	r.AddScenario(ev.ScenarioStat{Name: b.Name, States: int64(len(seen)), Transitions: trans, MaxDepth: depth, Exhaustive: exhaustive, Bound: bound, Outcomes: len(outcomes),
 		Extra: map[string]any{"alphabet": len(b.Ops), "pruned_known": pruned}, WallS: time.Since(t0).Seconds()})
+}
+
+func (b *BFS[W]) closeSafe(w W) {
+	defer func() { recover() }()
+	b.Close(w)
 }
 
 // Replay executes one recorded history (op names).
@@ -272,7 +290,10 @@ func (b *BFS[W]) Replay(r *ev.Run, raw json.RawMessage) {
 		}
 		p[i] = x
 	}
-	_, _, fl := b.exec(p)
+	w, _, fl := b.exec(p)
+	if b.Close != nil {
+		b.closeSafe(w)
+	}
 	if fl != nil {
 		r.Report(fl)
 	}
